@@ -23,6 +23,10 @@ for d in sorted(glob.glob("/verif/seeded/*/")):
     try:
         rc, o = sh(f"git apply {d}patch.diff", cwd="/repo")
         if rc != 0:
+            # written against an earlier commit of /repo (before a later `fix:`): merge
+            sh("git reset -q --hard HEAD", cwd="/repo")
+            rc, o = sh(f"git apply --3way {d}patch.diff", cwd="/repo")
+        if rc != 0:
             print(f"{name}: patch does not apply: {o[:200]}"); missed.append(name); continue
         t0 = time.time()
         rc, o = sh(f"./check {prop} --tier quick", cwd="/verif")
@@ -31,7 +35,7 @@ for d in sorted(glob.glob("/verif/seeded/*/")):
         if rc != 1:
             missed.append(name)
     finally:
-        sh("git checkout -- . && git clean -fdq", cwd="/repo")
+        sh("git reset -q --hard HEAD && git clean -fdq", cwd="/repo")
         sh("rm -f /verif/replays/*.json")
 print("missed:", missed)
 sys.exit(1 if missed else 0)
